@@ -48,6 +48,14 @@ INFO = {
  "C12_4": ("validation split into a key pass and a value pass with the assignment in between", "a table whose only defect is a bad capacity", False, ""),
  "C14_4": ("split_selfies uses a regex whose '.' does not match newline", "a symbol whose text contains a newline", False, ""),
  "C15_4": ("missing-'.' test `not dot_index` is also true for index 0", "a vocabulary mapping '.' to 0 and a string containing '.'", False, ""),
+ "C03_5": ("_form_rings_bilocally keeps a per-atom 'reserved' tally released by 1 per ring instead of by the ring order", "an atom that closes a ring with a double/triple bond and then opens another ring with its valence exactly used up (C1CCC(C=12)CCC2)", True, "missed (no multiple ring bond closing at an atom that opens another ring among the templates); caught after two such templates were added to C03"),
+ "C04_5": ("inversion count only over adjacent pairs of the out-bond permutation", "a chiral atom with three ring bonds written as a rotation or reversal of the closing order", False, ""),
+ "C07_5": ("set_semantic_constraints resets the live table and fills it key by key while validating", "accepted table A, then a rejected update, then use of alphabet / decoder", True, "missed (C07 had no rejected update between acceptance and use; C12 catches it); caught after part iii (accepted A, rejected update, alphabet and strings still follow A) was added to C07"),
+ "C11_5": ("get_index_from_selfies uses INDEX_CODE.setdefault(c, 0): non-index symbols read in an index position are inserted and the base len(INDEX_CODE) grows", "an earlier decode with a non-index (or missing) symbol in an index position, then a decode with a two-symbol index", True, "missed (no multi-symbol index in the final decode, no such warm-up string); caught after the 'history, then a 24-atom chain with a free two-symbol index' part and the warm-up strings were added"),
+ "C13_5": ("decoder's fragment offset for attribution advances by len_selfies(fragment), which counts [nop]", "attribute=True, several fragments, a [nop] in a non-final fragment", True, "missed: the M-TOK fragment object answered len_selfies' str.count differently from a string, for both sides alike; caught after fragments emulate str.count and the [nop]-filtered variant filters it too (plus a pre-flight fidelity probe of the M-TOK model that switches the whole run to plain strings when token lists and strings disagree)"),
+ "C16_5": ("INDEX_CODE as defaultdict indexed with [] (as C16_3, found independently)", "non-index symbol in an index slot", False, ""),
+ "C17_5": ("encoder's fragment offset assigned instead of accumulated", "attribute=True and three or more fragments", False, ""),
+ "C18_5": ("charge parsing `len(s) * 1 if plus else -1`: runs of '-' all become -1", "legacy atoms with '--' / '---' charges ([O--expl])", False, ""),
 }
 only = sys.argv[1:]
 for label in sorted(os.listdir(os.path.join(HERE, "seeded"))):
